@@ -1,0 +1,48 @@
+//go:build verif
+
+// Contracts for the deductive verifier in /verif (comment-only file; compiled only with -tags verif).
+package elastic
+
+// ---------------------------------------------------------------------------------------------
+// C10: Elasticsearch probe
+//
+// one request: bound to a context with the configured data timeout (cancel always released), GET of exactly the
+// given URL, body closed; success only if the body decoded to a JSON object (a nil map is refused)
+//@ func (*elasticClient).Get
+//@   props C10
+//@   observe context.WithTimeout, http.NewRequestWithContext, Do, Close, json.NewDecoder, Decode, cancel
+//@   entry row reqfail: [call context.WithTimeout(ctx, c.dataTimeout) as (c2, cf) ; call http.NewRequestWithContext(c2, "GET", url, _) as (rq, e) ; call cancel()]
+//@                         when e != nil && ret1 == e -> exit
+//@   entry row dofail:  [call context.WithTimeout(ctx, c.dataTimeout) as (c2, cf) ; call http.NewRequestWithContext(c2, "GET", url, _) as (rq, e) ; call Do(c.client, rq) as (resp, e2) ; call cancel()]
+//@                         when e == nil && e2 != nil && ret1 == e2 -> exit
+//@   entry row decfail: [call context.WithTimeout(ctx, c.dataTimeout) as (c2, cf) ; call http.NewRequestWithContext(c2, "GET", url, _) as (rq, e) ; call Do(c.client, rq) as (resp, e2) ;
+//@                       call json.NewDecoder(_) as (dec) ; call Decode(dec, _) as (de) ; call Close(_) ; call cancel()]
+//@                         when e == nil && e2 == nil && de != nil && ret1 == de -> exit
+//@   entry row notobj:  [call context.WithTimeout(ctx, c.dataTimeout) as (c2, cf) ; call http.NewRequestWithContext(c2, "GET", url, _) as (rq, e) ; call Do(c.client, rq) as (resp, e2) ;
+//@                       call json.NewDecoder(_) as (dec) ; call Decode(dec, _) as (de) ; call Close(_) ; call cancel()]
+//@                         when e == nil && e2 == nil && de == nil && ret0 == nil && ret1 == errNoJSONObject && ret1 != nil -> exit
+//@   entry row object:  [call context.WithTimeout(ctx, c.dataTimeout) as (c2, cf) ; call http.NewRequestWithContext(c2, "GET", url, _) as (rq, e) ; call Do(c.client, rq) as (resp, e2) ;
+//@                       call json.NewDecoder(_) as (dec) ; call Decode(dec, _) as (de) ; call Close(_) ; call cancel()]
+//@                         when e == nil && e2 == nil && de == nil && ret0 != nil && ret1 == nil -> exit
+
+// URLs: proto://host/ and proto://host/_aliases
+//@ func (*elasticClient).GetInfo
+//@   props C10
+//@   observe fmt.Sprintf, Get
+//@   entry row info: [call fmt.Sprintf("%s://%s/", bind_a) as (u) ; call Get(c, ctx, u) as (d, e)] when len(a) == 2 && astype(a[0], string) == c.proto && astype(a[1], string) == host && ret0 == d && ret1 == e -> exit
+//@ func (*elasticClient).GetIndexes
+//@   props C10
+//@   observe fmt.Sprintf, Get
+//@   entry row aliases: [call fmt.Sprintf("%s://%s/_aliases", bind_a) as (u) ; call Get(c, ctx, u) as (d, e)] when len(a) == 2 && astype(a[0], string) == c.proto && astype(a[1], string) == host && ret0 == d && ret1 == e -> exit
+
+// the probe: a record iff the primary request succeeded; the index request is best effort and can neither
+// suppress nor falsify the record; host = target address:port; proto = the scanner's
+//@ func (*Scanner).Scan
+//@   props C10 C08
+//@   observe String, fmt.Sprintf, GetInfo, GetIndexes
+//@   entry row noinfo: [call String(r.DstIP) as (ips) ; call fmt.Sprintf("%s:%d", bind_a) as (host) ; call GetInfo(s.elastic, ctx, host) as (info, e)]
+//@                        when len(a) == 2 && astype(a[0], string) == ips && astype(a[1], uint16) == r.DstPort && e != nil && ret0 == nil && ret1 == e -> exit
+//@   entry row record: [call String(r.DstIP) as (ips) ; call fmt.Sprintf("%s:%d", bind_a) as (host) ; call GetInfo(s.elastic, ctx, host) as (info, e) ; call GetIndexes(s.elastic, ctx, host) as (ix, e2)]
+//@                        when len(a) == 2 && astype(a[0], string) == ips && astype(a[1], uint16) == r.DstPort && e == nil && ret1 == nil && isptr(ret0, ScanResult)
+//@                          && asptr(ret0, ScanResult).Host == host && asptr(ret0, ScanResult).Proto == s.proto && asptr(ret0, ScanResult).Info == info
+//@                          && asptr(ret0, ScanResult).Indexes == ix && asptr(ret0, ScanResult).ScanType == "elastic" -> exit
